@@ -1089,26 +1089,53 @@ func (tr *Tr) binop(in *ssa.BinOp) Val {
 		return Val{tr.shift(in.Op, a, b, w, sg, yw)}
 	case token.LSS:
 		if sg {
+			tr.subCmpLemma(w, a, b)
 			return Val{f.SLt(a, b)}
 		}
 		return Val{f.ULt(a, b)}
 	case token.LEQ:
 		if sg {
+			tr.subCmpLemma(w, a, b)
 			return Val{f.SLe(a, b)}
 		}
 		return Val{f.ULe(a, b)}
 	case token.GTR:
 		if sg {
+			tr.subCmpLemma(w, b, a)
 			return Val{f.SLt(b, a)}
 		}
 		return Val{f.ULt(b, a)}
 	case token.GEQ:
 		if sg {
+			tr.subCmpLemma(w, b, a)
 			return Val{f.SLe(b, a)}
 		}
 		return Val{f.ULe(b, a)}
 	}
 	return tr.freshVal(in.Type(), "binop")
+}
+
+// subCmpLemma: for a signed 64-bit comparison of a difference p-q with c (the shape of `len(b[q:]) < c`), state the
+// equivalent comparison without the subtraction. The formulas are valid (true for all values: every quantity is confined
+// to [0, maxLen], so nothing wraps) and are added only because the solvers need tens of seconds to find them by
+// bit-blasting; the sum q+c is the term the following slice expression b[q:q+c] uses.
+func (tr *Tr) subCmpLemma(w int, x, y *Term) {
+	if w != 64 {
+		return
+	}
+	f := tr.f
+	z := f.BVi(64, 0)
+	in := func(t *Term) *Term { return f.And(f.SLe(z, t), f.SLe(t, tr.maxLen)) }
+	if x.Op == "bvsub" && len(x.Args) == 2 {
+		p, q, c := x.Args[0], x.Args[1], y
+		rng := f.And(in(p), in(q), in(c), f.SLe(q, p))
+		tr.assume(f.Implies(rng, f.And(f.Eq(f.SLt(x, c), f.SLt(p, f.Add(q, c))), f.Eq(f.SLe(x, c), f.SLe(p, f.Add(q, c))))), "difference comparison (valid lemma)")
+	}
+	if y.Op == "bvsub" && len(y.Args) == 2 {
+		p, q, c := y.Args[0], y.Args[1], x
+		rng := f.And(in(p), in(q), in(c), f.SLe(q, p))
+		tr.assume(f.Implies(rng, f.And(f.Eq(f.SLt(c, y), f.SLt(f.Add(q, c), p)), f.Eq(f.SLe(c, y), f.SLe(f.Add(q, c), p)))), "difference comparison (valid lemma)")
+	}
 }
 
 func (tr *Tr) shift(op token.Token, a, b *Term, w int, sg bool, yw int) *Term {
@@ -1390,7 +1417,12 @@ func (tr *Tr) sliceOp(fr *Frame, x *ssa.Slice) Val {
 			conds = append(conds, f.SLe(mx, s[3]))
 		}
 		tr.oblige("bounds", x.Pos(), f.And(conds...), "slice bounds out of range")
-		return Val{s[0], f.Add(s[1], f.Mul(lo, f.BVi(64, n))), f.Sub(hi, lo), f.Sub(mx, lo)}
+		nl, nc := f.Sub(hi, lo), f.Sub(mx, lo)
+		// a valid formula (no assumption): what the check above and the operand's header give for the new header. Stated
+		// because re-deriving `hi-lo <= cap-lo` over 64-bit vectors costs the solvers tens of seconds per use.
+		tr.assume(f.Implies(f.And(f.SLe(z, lo), f.SLe(lo, hi), f.SLe(hi, mx), f.SLe(mx, s[3]), f.SLe(s[3], tr.maxLen)),
+			f.And(f.SLe(z, nl), f.SLe(nl, nc), f.SLe(nc, s[3]), f.SLe(nl, hi))), "sub-slice header (valid lemma)")
+		return Val{s[0], f.Add(s[1], f.Mul(lo, f.BVi(64, n))), nl, nc}
 	case *types.Pointer:
 		a := u.Elem().Underlying().(*types.Array)
 		n := int64(nleaves(a.Elem()))
